@@ -156,8 +156,11 @@ def oracle_qtz(case) -> Result:
         if op == 'coef':
             with torch.no_grad():
                 a = q.alpha
-                q.alpha.copy_(mu.scores(a.shape[0], None if a.dim() == 1 else a.shape[1], arg,
-                                        'unit'))
+                v = mu.scores(a.shape[0], None if a.dim() == 1 else a.shape[1], arg, 'unit')
+                if arg % 2:
+                    q.alpha.data.copy_(v)      # the library's own idiom: no version-counter bump
+                else:
+                    q.alpha.copy_(v)
             moved = True
         elif op == 'opt':
             kw = {'temperature': None, 'hard': None, 'gumbel': None, 'disable_sampling': None}
@@ -238,7 +241,10 @@ def oracle_comb(case) -> Result:
     for i, (op, arg) in enumerate(case['ops']):
         if op == 'coef':
             with torch.no_grad():
-                c.alpha.copy_(mu.scores(n, None, arg, 'comb'))
+                if arg % 2:
+                    c.alpha.data.copy_(mu.scores(n, None, arg, 'comb'))
+                else:
+                    c.alpha.copy_(mu.scores(n, None, arg, 'comb'))
             moved = True
         elif op == 'opt':
             for name, val in _pairs(arg):
@@ -428,7 +434,10 @@ def oracle_sn_model(case) -> Result:
         if op == 'coef':
             with torch.no_grad():
                 for nid, c in combs.items():
-                    c.alpha.copy_(mu.scores(c.n_branches, None, arg, nid))
+                    if arg % 2:
+                        c.alpha.data.copy_(mu.scores(c.n_branches, None, arg, nid))
+                    else:
+                        c.alpha.copy_(mu.scores(c.n_branches, None, arg, nid))
             moved = True
         elif op == 'opt':
             kw = {}
